@@ -18,7 +18,8 @@ from .. import core, structural as st
 THEOREMS = ['Pk.C15.C15_history_independent_partial', 'Pk.C15.C15_params_untouched', 'Pk.C15.C15_readonly_pure',
             'Pk.C15.C15_concurrent_reads', 'Pk.C15.C15_params_roundtrip', 'Pk.C15.C15_set_get_id',
             'Pk.C15.C15_stop_sticky_witness', 'Pk.C15.C15_instances_independent', 'Pk.C15.C15_fit_by_value',
-            'Pk.C15.C15_overwrite', 'Pk.C15.C15_clone_fresh']
+            'Pk.C15.C15_overwrite', 'Pk.C15.C15_clone_fresh',
+            'Pk.C15.C15_fitted_snapshot', 'Pk.C15.C15_reads_after_edits']
 SOLVER = {'solver': 'cvxopt'}
 
 
